@@ -34,7 +34,11 @@ OtherUnits == {<<[t |-> "D", key |-> "weight", txt |-> "num", w |-> 7]>>,   \* w
 Units == NodeUnits \cup EmptyEdgeUnits \cup OpenEdgeUnits \cup OtherUnits
 
 KeyForms == IF AllHeaders THEN {"none", "std", "alt", "nofor", "noid", "othername"} ELSE {"std"}
-GraphForms == IF AllHeaders THEN {"directed", "undirected", "other", "none", "absent", "twice"} ELSE {"directed", "undirected"}
+(* "h_*": a declared graph element that also carries the optional GraphML attributes a reader may or
+   may not look at (id, parse.nodes / parse.edges / parse.order size hints) with small, huge (2^62,
+   10^15), and non-numeric / negative / overflowing values; the contract ignores them *)
+HintForms == {"h_small", "h_huge", "h_big", "h_word"}
+GraphForms == IF AllHeaders THEN {"directed", "undirected", "other", "none", "absent", "twice"} \cup HintForms ELSE {"directed", "undirected"}
 
 KeyToks(k) == IF k = "none" THEN <<>> ELSE <<[t |-> "K", form |-> k]>>
 
@@ -45,6 +49,7 @@ Doc(k, gf, content) ==
   KeyToks(k) \o
   (CASE gf = "absent" -> content
      [] gf = "twice" -> <<[t |-> "G", dflt |-> "directed"]>> \o content \o <<[t |-> "/G"], [t |-> "G", dflt |-> "undirected"], [t |-> "/G"]>>
+     [] gf \in HintForms -> <<[t |-> "G", dflt |-> IF gf = "h_big" THEN "undirected" ELSE "directed", hints |-> gf]>> \o content \o <<[t |-> "/G"]>>
      [] OTHER -> <<[t |-> "G", dflt |-> gf]>> \o content \o <<[t |-> "/G"]>>)
 
 VARIABLE x
